@@ -1,14 +1,16 @@
 package manifam
 
-// C13, pom.xml leg: model + renderer of pom.xml documents (child and optional local
-// parent), an independent token-level reader of the rendered bytes (encoding/xml), and
-// the property function.
+// C13, pom.xml leg: model + renderer of pom.xml documents (the manifest and an optional
+// chain of up to three local ancestors: parent, grandparent, great-grandparent), an
+// independent token-level reader of the rendered bytes (encoding/xml), and the property
+// function.
 
 import (
 	"bytes"
 	"encoding/xml"
 	"fmt"
 	"io"
+	"path"
 	"path/filepath"
 	"sort"
 	"strings"
@@ -107,14 +109,120 @@ type pomUpdate struct {
 	To   string `json:"to"`
 }
 
-type pomCase struct {
-	Child      pomFile     `json:"child"`
-	Parent     *pomFile    `json:"parent_file,omitempty"`
-	ParentPath string      `json:"parent_path,omitempty"` // location of the parent file relative to in/: "parent/pom.xml" | "pom.xml" | "app/parent-pom.xml"
-	Updates    []pomUpdate `json:"updates"`
+// pomAncestor is a local ancestor above the parent (grandparent, great-grandparent).
+type pomAncestor struct {
+	File pomFile `json:"file"`
+	Path string  `json:"path"` // location relative to in/
 }
 
-const pomChildPath = "app/pom.xml"
+type pomCase struct {
+	Child      pomFile       `json:"child"`
+	ChildPath  string        `json:"child_path,omitempty"` // location of the manifest relative to in/; "" = app/pom.xml
+	Parent     *pomFile      `json:"parent_file,omitempty"`
+	ParentPath string        `json:"parent_path,omitempty"` // location of the parent file relative to in/, e.g. "parent/pom.xml" | "pom.xml" | "app/parent-pom.xml"
+	Ancestors  []pomAncestor `json:"ancestors,omitempty"`   // the local ancestors above Parent, nearest first
+	Updates    []pomUpdate   `json:"updates"`
+}
+
+const pomDefaultChildPath = "app/pom.xml"
+
+// pomChainFile is one pom of the chain manifest -> parent -> grandparent -> ...
+type pomChainFile struct {
+	file *pomFile
+	path string // relative to in/
+}
+
+// chain returns the poms of the case: the manifest first, then its local ancestors.
+func (c *pomCase) chain() []pomChainFile {
+	cp := c.ChildPath
+	if cp == "" {
+		cp = pomDefaultChildPath
+	}
+	out := []pomChainFile{{&c.Child, cp}}
+	if c.Parent != nil {
+		out = append(out, pomChainFile{c.Parent, c.ParentPath})
+		for i := range c.Ancestors {
+			out = append(out, pomChainFile{&c.Ancestors[i].File, c.Ancestors[i].Path})
+		}
+	}
+	return out
+}
+
+// resolveParentPath is Maven's lookup of a local parent: relativePath (default
+// ../pom.xml) from the directory of the referring pom, a directory standing for the
+// pom.xml in it. It returns the two candidate locations (file form, directory form).
+func resolveParentPath(from, rel string) (string, string) {
+	if rel == "" {
+		rel = "../pom.xml"
+	}
+	p := path.Join(path.Dir(from), rel)
+	return p, path.Join(p, "pom.xml")
+}
+
+// checkChain verifies that the case is self-contained: every <parent> reference leads to
+// the next file of the chain (location and effective coordinates), every ancestor has
+// packaging pom, and the topmost pom has no parent (which would need the network).
+func (c *pomCase) checkChain() error {
+	if c.Parent == nil && len(c.Ancestors) > 0 {
+		return fmt.Errorf("ancestors without a parent file")
+	}
+	ch := c.chain()
+	if len(ch) > 4 {
+		return fmt.Errorf("chain of %d local ancestors", len(ch)-1)
+	}
+	seen := map[string]bool{}
+	for i, f := range ch {
+		if f.path == "" || f.path != path.Clean(f.path) || strings.HasPrefix(f.path, "../") || strings.HasPrefix(f.path, "/") || seen[f.path] {
+			return fmt.Errorf("location %q of pom %d", f.path, i)
+		}
+		seen[f.path] = true
+		for q := range seen {
+			// no file of the chain is at the same time a directory of another one
+			if strings.HasPrefix(q, f.path+"/") || strings.HasPrefix(f.path, q+"/") {
+				return fmt.Errorf("location %q of pom %d is inside %q", f.path, i, q)
+			}
+		}
+	}
+	for i, f := range ch {
+		ref := f.file.Parent
+		if i == len(ch)-1 {
+			if ref != nil {
+				return fmt.Errorf("parent reference without a local parent file (needs the network)")
+			}
+			if i > 0 && (f.file.G == "" || f.file.V == "") {
+				return fmt.Errorf("topmost pom without groupId/version")
+			}
+			break
+		}
+		if ref == nil {
+			return fmt.Errorf("pom %d has no <parent> but a local ancestor is given", i)
+		}
+		up := ch[i+1]
+		asFile, asDir := resolveParentPath(f.path, ref.RelPath)
+		if up.path != asFile && up.path != asDir {
+			return fmt.Errorf("relativePath %q of %s does not lead to %s", ref.RelPath, f.path, up.path)
+		}
+		if seen[asFile] && up.path != asFile {
+			return fmt.Errorf("relativePath %q of %s names another pom of the chain", ref.RelPath, f.path)
+		}
+		if up.file.Packaging != "pom" {
+			return fmt.Errorf("ancestor %s has packaging %q", up.path, up.file.Packaging)
+		}
+		g, v := up.file.G, up.file.V
+		if up.file.Parent != nil {
+			if g == "" {
+				g = up.file.Parent.G
+			}
+			if v == "" {
+				v = up.file.Parent.V
+			}
+		}
+		if ref.G != g || ref.A != up.file.A || ref.V != v || g == "" || v == "" {
+			return fmt.Errorf("<parent> %s:%s:%s of %s is not the project %s:%s:%s at %s", ref.G, ref.A, ref.V, f.path, g, up.file.A, v, up.path)
+		}
+	}
+	return nil
+}
 
 // ---------------------------------------------------------------------------------------
 // renderer
@@ -562,7 +670,7 @@ func kidSummary(n *xnode) string {
 // independent reading of dependency slots and property definitions
 
 type pomSlot struct {
-	file     int    // 0 child, 1 parent
+	file     int    // 0 the manifest, 1 its parent, 2 the grandparent, ...
 	origin   string // "" | management | profile@ID | profile@ID@management | plugin@g:a
 	profile  string
 	active   bool // profile is activeByDefault
@@ -589,7 +697,7 @@ type pomPropDef struct {
 }
 
 type pomAnalysis struct {
-	roots [2]*xnode // document nodes
+	roots []*xnode // document nodes: the manifest, then its local ancestors
 	slots []*pomSlot
 	defs  []*pomPropDef
 }
@@ -657,11 +765,11 @@ func (an *pomAnalysis) effDef(s *pomSlot, name string) *pomPropDef {
 	if s.visible && pick(func(d *pomPropDef) bool { return d.file == 0 && d.profile != "" && d.active }) {
 		return found
 	}
-	if pick(func(d *pomPropDef) bool { return d.file == 0 && d.profile == "" }) {
-		return found
-	}
-	if pick(func(d *pomPropDef) bool { return d.file == 1 && d.profile == "" }) {
-		return found
+	// project level: the manifest's own definition, else the one of the nearest ancestor
+	for f := range an.roots {
+		if pick(func(d *pomPropDef) bool { return d.file == f && d.profile == "" }) {
+			return found
+		}
 	}
 	return nil
 }
@@ -669,7 +777,7 @@ func (an *pomAnalysis) effDef(s *pomSlot, name string) *pomPropDef {
 // builtin resolves the model properties the generator uses: project.version is the
 // version of the project being read (the child), inherited from its parent when absent.
 func (an *pomAnalysis) builtin(name string) (string, bool) {
-	if name != "project.version" || an.roots[0] == nil {
+	if name != "project.version" || len(an.roots) == 0 {
 		return "", false
 	}
 	proj := an.roots[0].child("project")
@@ -733,27 +841,32 @@ func (an *pomAnalysis) interp(s *pomSlot) (string, error) {
 	return b.String(), nil
 }
 
-func analysePom(child []byte, parent []byte) (*pomAnalysis, error) {
+// analysePom reads the documents of a chain: the manifest first, then its local ancestors.
+func analysePom(docs [][]byte) (*pomAnalysis, error) {
 	an := &pomAnalysis{}
-	doc, err := parseXML(child)
-	if err != nil {
-		return nil, fmt.Errorf("child: %w", err)
-	}
-	an.roots[0] = doc
-	if err := an.scan(0, doc); err != nil {
-		return nil, err
-	}
-	if parent != nil {
-		pdoc, err := parseXML(parent)
+	for i, b := range docs {
+		doc, err := parseXML(b)
 		if err != nil {
-			return nil, fmt.Errorf("parent: %w", err)
+			return nil, fmt.Errorf("%s: %w", pomFileName(i), err)
 		}
-		an.roots[1] = pdoc
-		if err := an.scan(1, pdoc); err != nil {
-			return nil, err
+		an.roots = append(an.roots, doc)
+		if err := an.scan(i, doc); err != nil {
+			return nil, fmt.Errorf("%s: %w", pomFileName(i), err)
 		}
 	}
 	return an, nil
+}
+
+func pomFileName(file int) string {
+	switch file {
+	case 0:
+		return "pom.xml"
+	case 1:
+		return "parent pom"
+	case 2:
+		return "grandparent pom"
+	}
+	return fmt.Sprintf("ancestor %d pom", file)
 }
 
 // ---------------------------------------------------------------------------------------
@@ -852,8 +965,10 @@ func prologHasProjectLiteral(doc *xnode) bool {
 
 // pomDocClasses returns the known-finding classes of the documents themselves.
 func pomDocClasses(an *pomAnalysis) []string {
-	if prologHasProjectLiteral(an.roots[0]) || prologHasProjectLiteral(an.roots[1]) {
-		return []string{"c13.project_literal_in_prolog"}
+	for _, r := range an.roots {
+		if prologHasProjectLiteral(r) {
+			return []string{"c13.project_literal_in_prolog"}
+		}
 	}
 	return nil
 }
@@ -886,47 +1001,47 @@ func mavenReqKey(r resolve.RequirementVersion) string {
 	return r.Name + "|" + t + "|" + c
 }
 
-func (c *pomCase) write(ws *workspace) (child, parent []byte, err error) {
-	inputs := map[string]bool{"in/" + pomChildPath: true}
-	if c.Parent != nil {
-		inputs["in/"+c.ParentPath] = true
+// write renders the poms of the chain into the workspace and returns their bytes (the
+// manifest first). The places the writer is expected to write to are registered as well,
+// so that whatever a case leaves there is removed before the next one.
+func (c *pomCase) write(ws *workspace) (docs [][]byte, err error) {
+	ch := c.chain()
+	inputs := map[string]bool{}
+	for _, f := range ch {
+		inputs["in/"+f.path] = true
 	}
 	if err = ws.reset(inputs); err != nil {
 		return
 	}
-	child = renderPom(&c.Child)
-	if err = ws.put("in/"+pomChildPath, child); err != nil {
-		return
-	}
-	if c.Parent != nil {
-		parent = renderPom(c.Parent)
-		err = ws.put("in/"+c.ParentPath, parent)
+	for _, f := range ch {
+		b := renderPom(f.file)
+		if err = ws.put("in/"+f.path, b); err != nil {
+			return
+		}
+		ws.files["out/"+f.path] = true
+		docs = append(docs, b)
 	}
 	return
 }
 
 func propC13Pom(c *pomCase) (ev.Outcome, error) {
 	o := ev.Outcome{Classes: []string{"pom"}}
-	if (c.Parent != nil) != (c.Child.Parent != nil) {
-		return o, fmt.Errorf("bad case: parent reference without a local parent file (needs the network)")
+	if err := c.checkChain(); err != nil {
+		return o, fmt.Errorf("bad case: %v", err)
 	}
-	if c.Parent != nil {
-		switch c.ParentPath {
-		case "parent/pom.xml", "pom.xml", "app/parent-pom.xml":
-		default:
-			return o, fmt.Errorf("bad case: parent path %q", c.ParentPath)
-		}
-	}
+	chain := c.chain()
+	pomChildPath := chain[0].path
 	ws, err := c13Workspace()
 	if err != nil {
 		return o, fmt.Errorf("harness: %v", err)
 	}
 	dir := ws.root
-	childIn, parentIn, err := c.write(ws)
+	docsIn, err := c.write(ws)
 	if err != nil {
 		return o, fmt.Errorf("harness: %v", err)
 	}
-	an, err := analysePom(childIn, parentIn)
+	childIn := docsIn[0]
+	an, err := analysePom(docsIn)
 	if err != nil {
 		return o, fmt.Errorf("bad case: generated pom.xml does not tokenise: %v", err)
 	}
@@ -1002,7 +1117,7 @@ func propC13Pom(c *pomCase) (ev.Outcome, error) {
 		// plugins) are only reached by the Update path: the suggester proposes an update for
 		// those of the manifest itself (not of a parent POM: OriginalDependency looks at the
 		// base project's own declarations) whose version is literal.
-		if s.file == 1 || strings.Contains(s.verLit, "${") {
+		if s.file >= 1 || strings.Contains(s.verLit, "${") {
 			if !addressed[s.name()] {
 				return o, fmt.Errorf("bad case: update of %s (%s, declared %q), which no caller addresses", s.name(), originName(s), s.verLit)
 			}
@@ -1058,18 +1173,19 @@ func propC13Pom(c *pomCase) (ev.Outcome, error) {
 		o.Classes = append(o.Classes, "pom_write_error")
 		return o, nil
 	}
-	childOut, err := ws.output("out/" + pomChildPath)
-	if err != nil {
-		return o, fmt.Errorf("Write returned nil but the output file is missing: %v", err)
-	}
-	var parentOut []byte
-	if c.Parent != nil {
-		parentOut, err = ws.output("out/" + c.ParentPath)
+	// every pom of the chain is written, at the same place relative to the manifest
+	var docsOut [][]byte
+	for i, f := range chain {
+		b, err := ws.output("out/" + f.path)
 		if err != nil {
-			return o, fmt.Errorf("Write returned nil but the local parent was not written beside the output: %v", err)
+			if i == 0 {
+				return o, fmt.Errorf("Write returned nil but the output file is missing: %v", err)
+			}
+			return o, fmt.Errorf("Write returned nil (updates %s) but the local %s %s was not written beside the output: %v", describeUpdates(ups), pomFileName(i), f.path, err)
 		}
+		docsOut = append(docsOut, b)
 	}
-	anOut, err := analysePom(childOut, parentOut)
+	anOut, err := analysePom(docsOut)
 	if err != nil {
 		return o, fmt.Errorf("written pom.xml does not tokenise: %v", err)
 	}
@@ -1088,20 +1204,34 @@ func propC13Pom(c *pomCase) (ev.Outcome, error) {
 			}
 		}
 	}
-	for f := 0; f < 2; f++ {
-		if an.roots[f] == nil {
+	// A pom of the chain in which nothing is addressed has no exempt node: it has to come
+	// out as the same token tree.
+	touched := make([]bool, len(chain))
+	for _, s := range an.slots {
+		if !slotHit[s] {
 			continue
 		}
+		touched[s.file] = true
+		for _, p := range placeholders(s.verLit) {
+			if d := an.effDef(s, p); d != nil {
+				touched[d.file] = true
+			}
+		}
+	}
+	for f := range chain {
 		if err := compareTrees(an.roots[f], anOut.roots[f], may); err != nil {
 			which := "pom.xml"
-			if f == 1 {
-				which = "parent " + c.ParentPath
+			if f > 0 {
+				which = pomFileName(f) + " " + chain[f].path
+			}
+			if !touched[f] {
+				which += ", in which no requirement is addressed,"
 			}
 			return o, fmt.Errorf("%s not preserved (updates %s): %v", which, describeUpdates(ups), err)
 		}
-	}
-	if len(ups) == 0 && (!sameTokens(childIn, childOut) || (c.Parent != nil && !sameTokens(parentIn, parentOut))) {
-		return o, fmt.Errorf("harness: trees equal but token sequences differ")
+		if !touched[f] && !sameTokens(docsIn[f], docsOut[f]) {
+			return o, fmt.Errorf("harness: trees of %s equal but token sequences differ", chain[f].path)
+		}
 	}
 
 	// (2) every declared requirement, as this harness reads it (all sections, inactive
@@ -1161,6 +1291,58 @@ func propC13Pom(c *pomCase) (ev.Outcome, error) {
 	}
 	if c.Parent != nil {
 		cls["pom_local_parent"] = true
+		cls[fmt.Sprintf("pom_chain_depth_%d", len(chain)-1)] = true
+		inheritG, inheritV := false, false
+		for i := 1; i < len(chain); i++ {
+			f := chain[i].file
+			if f.G == "" {
+				inheritG = true
+			}
+			if f.V == "" {
+				inheritV = true
+			}
+			if len(f.Deps) > 0 && i >= 2 {
+				cls["pom_ancestor_declares_dependencies"] = true
+			}
+			if len(f.Mgmt) > 0 && i >= 2 {
+				cls["pom_ancestor_declares_management"] = true
+			}
+		}
+		if inheritG {
+			cls["pom_parent_inherits_group"] = true
+		}
+		if inheritV {
+			cls["pom_parent_inherits_version"] = true
+		}
+		if inheritG && inheritV {
+			cls["pom_parent_inherits_group_and_version"] = true
+		}
+		for i := 0; i+1 < len(chain); i++ {
+			ref := chain[i].file.Parent
+			_, asDir := resolveParentPath(chain[i].path, ref.RelPath)
+			lvl := "parent"
+			if i > 0 {
+				lvl = "ancestor"
+			}
+			switch {
+			case ref.RelPath == "":
+				cls["pom_"+lvl+"_at_default_path"] = true
+			case chain[i+1].path == asDir:
+				cls["pom_"+lvl+"_relpath_directory"] = true
+			default:
+				cls["pom_"+lvl+"_relpath_file"] = true
+			}
+		}
+		for f := 1; f < len(chain); f++ {
+			if touched[f] {
+				cls[fmt.Sprintf("pom_changed_ancestor_%d", f)] = true
+			} else if len(ups) > 0 {
+				cls["pom_unchanged_ancestor_with_updates"] = true
+			}
+		}
+		if len(ups) > 0 && !touched[0] {
+			cls["pom_manifest_unchanged_with_updates"] = true
+		}
 	}
 	if c.Child.NS {
 		cls["pom_namespaced"] = true
@@ -1225,9 +1407,9 @@ func propC13Pom(c *pomCase) (ev.Outcome, error) {
 				}
 				cls["pom_upd_multi_scope_property"] = true
 				switch {
-				case x.file == 1 && x.profile != "":
+				case x.file >= 1 && x.profile != "":
 					cls["pom_upd_multi_scope_parent_profile"] = true
-				case x.file == 1:
+				case x.file >= 1:
 					cls["pom_upd_multi_scope_parent"] = true
 				case x.profile == "":
 					cls["pom_upd_multi_scope_project_level"] = true
@@ -1249,8 +1431,20 @@ func propC13Pom(c *pomCase) (ev.Outcome, error) {
 			}
 		}
 		switch {
-		case s.file == 1:
+		case s.file >= 1:
 			cls["pom_upd_in_parent_file"] = true
+			if s.file >= 2 {
+				cls["pom_upd_in_grandparent_or_above"] = true
+			}
+			if f := chain[s.file].file; f.G == "" || f.V == "" {
+				cls["pom_upd_in_ancestor_with_inherited_coordinates"] = true
+			}
+			if len(placeholders(s.verLit)) > 0 && slotHit[s] {
+				cls["pom_upd_in_ancestor_interpolated"] = true
+			}
+			if s.origin == "management" {
+				cls["pom_upd_in_ancestor_management"] = true
+			}
 		case strings.HasPrefix(s.origin, "profile@") && s.active:
 			cls["pom_upd_active_profile"] = true
 		case strings.HasPrefix(s.origin, "profile@"):
@@ -1324,10 +1518,7 @@ func affixClasses(lit, target string) []string {
 }
 
 func originName(s *pomSlot) string {
-	f := "pom.xml"
-	if s.file == 1 {
-		f = "parent pom"
-	}
+	f := pomFileName(s.file)
 	if s.origin == "" {
 		return f + " dependencies"
 	}
